@@ -181,8 +181,10 @@ def standard_flow(C, tier, replay=None):
     }
     if C.get("extra_coverage"):
         cov.update(C["extra_coverage"])
-    vlib.write_evidence(prop, tier, C.get("level", "model_checking"), cov, C.get("assumptions", []),
-                        time.time() - t0, len(violations))
+    # a --replay run covers only the replayed plans: it never overwrites the check's evidence record
+    if not replay:
+        vlib.write_evidence(prop, tier, C.get("level", "model_checking"), cov, C.get("assumptions", []),
+                            time.time() - t0, len(violations))
     if violations:
         return 1
     if inconclusive:
